@@ -116,9 +116,9 @@ WRAP:
 		if !added {
 			added = true
 			// Otherwise, set the date at the beginning (since the current time is irrelevant).
-			t = time.Date(t.Year(), t.Month(), 1, 0, 0, 0, 0, loc)
+			t = dayStart(time.Date(t.Year(), t.Month(), 1, 0, 0, 0, 0, loc))
 		}
-		t = t.AddDate(0, 1, 0)
+		t = dayStart(t.AddDate(0, 1, 0))
 
 		// Wrapped around.
 		if t.Month() == time.January {
@@ -136,16 +136,8 @@ WRAP:
 			added = true
 			t = time.Date(t.Year(), t.Month(), t.Day(), 0, 0, 0, 0, loc)
 		}
-		t = t.AddDate(0, 0, 1)
 		// Notice if the hour is no longer midnight due to DST.
-		// Add an hour if it's 23, subtract an hour if it's 1.
-		if t.Hour() != 0 {
-			if t.Hour() > 12 {
-				t = t.Add(time.Duration(24-t.Hour()) * time.Hour)
-			} else {
-				t = t.Add(time.Duration(-t.Hour()) * time.Hour)
-			}
-		}
+		t = dayStart(t.AddDate(0, 0, 1))
 
 		if t.Day() == 1 {
 			goto WRAP
@@ -157,9 +149,11 @@ WRAP:
 			added = true
 			t = time.Date(t.Year(), t.Month(), t.Day(), t.Hour(), 0, 0, 0, loc)
 		}
+		day := t.Day()
 		t = t.Add(1 * time.Hour)
 
-		if t.Hour() == 0 {
+		// The day also changes without passing hour 0 where DST skips midnight.
+		if t.Hour() == 0 || t.Day() != day {
 			goto WRAP
 		}
 	}
@@ -189,6 +183,28 @@ WRAP:
 	}
 
 	return t.In(origLocation)
+}
+
+// dayStart takes a time that was aimed at a local midnight and returns the first
+// instant of that local day. The two differ where DST skips midnight (time.Date
+// then answers 23:00 of the previous day or 01:00) or repeats it.
+func dayStart(t time.Time) time.Time {
+	switch h := t.Hour(); {
+	case h > 12:
+		// Add an hour if it's 23.
+		return t.Add(time.Duration(24-h) * time.Hour)
+	case h > 0:
+		// Subtract an hour if it's 1, unless the day starts at 1.
+		if u := t.Add(time.Duration(-h) * time.Hour); u.Day() == t.Day() {
+			return u
+		}
+	default:
+		// Midnight may happen twice; start at the first one.
+		if u := t.Add(-1 * time.Hour); u.Hour() == 0 && u.Day() == t.Day() {
+			return u
+		}
+	}
+	return t
 }
 
 // dayMatches returns true if the schedule's day-of-week and day-of-month
